@@ -219,7 +219,8 @@ class C19(verif.Spec):
                      "again": [self.snd(h, E.token(BG, 1, sph, 2))], "withdraw": [self.snd(h, E.token(BG, 0, 0, 0))],
                      "expire": ["tick 3", "alarm"], "none": []}
                 Y = {"third-asks": [self.snd(t, E.token(BG, 1, spt, 2))], "waiter-again": [self.snd(w, E.token(BG, 1, spw, 2))],
-                     "third-inter": [self.snd(t, E.token(INTER, 1, spt, 0))], "waiter-shut": ["shut %d" % w]}
+                     "third-inter": [self.snd(t, E.token(INTER, 1, spt, 0))], "waiter-shut": ["shut %d" % w],
+                     "waiter-withdraws": [self.snd(w, E.notify(F_REL))]}
                 for xn, x in X.items():
                     for yn, y in Y.items():
                         n += 1
@@ -229,6 +230,38 @@ class C19(verif.Spec):
                         if xn not in ("shut", "shutrd", "cnf"):
                             c += [self.snd(h, E.reclaim_cnf()), "iter", "iter", "iter"] + self.recv_all(3)
                         c += ["tick 3", "alarm", "iter", "iter", "iter"] + self.recv_all(3)
+                        cases.append(c)
+        return cases
+
+    def withdraw_cases(self):
+        """a client that WAITS for the token withdraws (RELEASE notify, RELEASE+FLUSH, request with an invalid profile, request
+        at another priority) in a round of its own; later the token gets free: the holder releases / returns / disconnects /
+        is reclaimed by a third client / its reservation expires.  All list positions of holder, waiter, third."""
+        import itertools
+        cases = []
+        n = 0
+        for h, w, t in itertools.permutations(range(3)):
+            for third_asks in (False, True):
+                base = []
+                for i in range(3):
+                    base += ["connect 0", "iter", self.snd(i, E.connect(services=4)), "iter", "iter"]
+                base += [self.snd(h, E.token(BG, 1, 0x20, 2)), "iter", "iter"] + self.recv_all(3)
+                base += [self.snd(w, E.token(BG, 1, 0x20, 2)), "iter", "iter"] + self.recv_all(3)
+                if third_asks:
+                    base += [self.snd(t, E.token(BG, 1, 0x10, 2)), "iter", "iter"] + self.recv_all(3)
+                W = [[self.snd(w, E.notify(F_REL))], [self.snd(w, E.notify(F_REL | F_FLUSH))], [self.snd(w, E.token(BG, 0, 0x20, 2))],
+                     [self.snd(w, E.token(INTER, 1, 0x20, 2)), "iter", "iter", self.snd(w, E.token(BG, 0, 0, 0))],
+                     [self.snd(w, E.notify(F_REL)), "iter", "iter", self.snd(w, E.token(BG, 1, 0x20, 2)), "iter", "iter", self.snd(w, E.notify(F_REL))]]
+                X = [[self.snd(h, E.notify(F_REL))], [self.snd(h, E.notify(F_TOK))], ["shut %d" % h], ["shutrd %d" % h, "frame 0 4"],
+                     [self.snd(t, E.token(BG, 1, 0x40, 2)), "iter", "iter", "iter"] + self.recv_all(3) + [self.snd(h, E.reclaim_cnf())],
+                     ["tick 3", "alarm"], [self.snd(h, E.token(BG, 1, 0x20, 2))]]
+                for wd in W:
+                    for x in X:
+                        n += 1
+                        c = list(base) + wd + ["iter", "iter"] + self.recv_all(3) + x + ["iter", "iter", "iter"] + self.recv_all(3)
+                        c += ["tick 3", "alarm", "iter", "iter", "iter"] + self.recv_all(3)
+                        # the waiter asks again: must be served like any requester
+                        c += [self.snd(w, E.token(BG, 1, 0x20, 2)), "iter", "iter", "iter"] + self.recv_all(3)
                         cases.append(c)
         return cases
 
@@ -451,6 +484,9 @@ class C19(verif.Spec):
         n0 = len(cases)
         cases += self.service_frame_cases() + self.halfclose_cases()
         self.bump("service_frame+halfclose", len(cases) - n0)
+        n0 = len(cases)
+        cases += self.withdraw_cases()
+        self.bump("withdraw", len(cases) - n0)
         # device variants
         for cfgl in ["dev 0 0x405 1 525 0", "dev 0 0 2 625 625", "dev 0 0xffffffff 0 625 625", "dev 0 0x4 2 625 -1", "dev 1 0x400 2 525 525"]:
             for _ in range(6 if quick else 40):
@@ -497,6 +533,9 @@ class C19(verif.Spec):
         ncnf = {}           # handle -> TOKEN_CNFs received (the k-th answers the k-th request)
         reclaimed = {}
         cnf_early = {}
+        askq = {}           # handle -> sends that change "asks for channel control", not yet answered, in send order:
+                            #           ["T", asked] token request, ["N", release] notify (RELEASE withdraws the request)
+        asks = {}           # handle -> does the client ask for channel control, as far as the daemon has ANSWERED its messages
         fifo = {}           # handle -> requests not yet answered: 'T' token request, 'F' notify that returns/releases, 'n' other notify
         gone = set()
         for op, o in zip(case, out):
@@ -522,11 +561,14 @@ class C19(verif.Spec):
                         fifo.setdefault(c, []).append("T")
                         holds[c] = False
                         treq.setdefault(c, []).append(f.get("valid", 0) != 0 and f.get("prio") == BG)
+                        askq.setdefault(c, []).append(["T", f.get("valid", 0) != 0 and f.get("prio") == BG])
                     elif n == "CHN_NOTIFY_REQ" and not (f.get("flags", 0) & (F_TOK | F_REL)):
                         fifo.setdefault(c, []).append("n")
+                        askq.setdefault(c, []).append(["N", False])
                     elif n == "CHN_NOTIFY_REQ":
                         fifo.setdefault(c, []).append("F")
                         holds[c] = False
+                        askq.setdefault(c, []).append(["N", bool(f.get("flags", 0) & F_REL)])
                     elif n == "CHN_RECLAIM_CNF":
                         if reclaimed.get(c):
                             holds[c] = False
@@ -562,11 +604,22 @@ class C19(verif.Spec):
                         ncnf[c] = ncnf.get(c, 0) + 1
                         if "T" in fifo.get(c, []):
                             fifo[c].remove("T")
+                        for k, e in enumerate(askq.get(c, [])):
+                            if e[0] == "T":
+                                asks[c] = e[1]
+                                del askq[c][k]
+                                break
                     if m.startswith("NOTIFY_CNF"):
                         q = fifo.get(c, [])
                         for k, x in enumerate(q):
                             if x in ("F", "n"):
                                 del q[k]
+                                break
+                        for k, e in enumerate(askq.get(c, [])):
+                            if e[0] == "N":
+                                if e[1]:
+                                    asks[c] = False     # CHN_NOTIFY_REQ(RELEASE) revokes the request, with or without the token
+                                del askq[c][k]
                                 break
                     if m.startswith("TOKEN_IND") or m.startswith("TOKEN_CNF:20:ind1"):
                         d = dev_of.get(c)
@@ -583,9 +636,17 @@ class C19(verif.Spec):
                         cand = rq[k - 1:k] if m.startswith("TOKEN_CNF") else rq[max(k - 1, 0):]
                         if not any(cand):
                             return "grant to client %d which did not ask for channel control" % c
+                        # the daemon answers a client's messages in order and writes TOKEN_IND only to an idle connection:
+                        # what it had processed when it wrote the grant is exactly what it has answered before it in the
+                        # stream.  The client must ask at that point (last answered token request valid at background
+                        # priority, not revoked by an answered RELEASE) or have a valid request on the way.
+                        if m.startswith("TOKEN_IND") and not asks.get(c, False) and \
+                                not any(e[0] == "T" and e[1] for e in askq.get(c, [])):
+                            return "grant to client %d that does not currently ask for channel control (it withdrew its request)" % c
                         holds[c] = not stale and c not in gone     # a log read after the client's own disconnect is history
                         reclaimed[c] = False
-                        cnf_early[c] = False
+                # a RECLAIM_CNF sent before this read may answer any RECLAIM_REQ in the batch, also one behind a TOKEN_IND
+                cnf_early[c] = False
             elif w[0] == "iter":
                 st = pu.parse_state(o)
                 if st is None:
